@@ -69,6 +69,13 @@ CmdSetKey ==
   /\ E.ev = "cmd" /\ E.op = "set_key"
   /\ SetShardingKey(E.neg, <<E.hi[1], E.hi[2]>>, <<E.lo[1], E.lo[2]>>) /\ CmdCommon /\ UNCHANGED sc
 
+\* SET SHARDING KEY under the SHA1 sharding function: TLA+ does not evaluate SHA-1; the expected
+\* shard is supplied by the harness (hashlib) and only persistence / agreement is decided here.
+CmdSetKeyExt ==
+  /\ E.ev = "cmd" /\ E.op = "set_key_ext"
+  /\ shardSel' = E.expect /\ UNCHANGED <<cfg, roleSel, prSel, lastClass>>
+  /\ CmdCommon /\ UNCHANGED sc
+
 \* A documented command whose effect on the selection the statement leaves open (SET SHARD TO ANY,
 \* a sharding key that does not fit a bigint): handled, well-formed reply; the shard becomes unknown.
 CmdOpaque ==
@@ -107,7 +114,8 @@ NonCommand ==
 StmtEv ==
   /\ E.ev = "stmt"
   /\ LET cls == E.class
-         sh == IF E.haskey THEN PgShard(E.neg, <<E.hi[1], E.hi[2]>>, <<E.lo[1], E.lo[2]>>, NShards) ELSE shardSel
+         sh == IF E.haskey THEN (IF E.ext >= 0 THEN E.ext ELSE PgShard(E.neg, <<E.hi[1], E.hi[2]>>, <<E.lo[1], E.lo[2]>>, NShards))
+               ELSE IF E.setshard >= 0 THEN E.setshard ELSE shardSel
          exp == IF E.parsed THEN ExpectedRole(cls) ELSE ExpectedRole("unparseable")
          executed == E.role # "none"
          v1 == executed /\ ~E.intx /\ ~RoleOk(exp, E.role)
@@ -123,7 +131,7 @@ StmtEv ==
 
 Step ==
   /\ l <= Len(Rec) /\ l' = l + 1
-  /\ \/ Reset \/ CmdSetRole \/ CmdSetPr \/ CmdSetShard \/ CmdSetKey \/ CmdOpaque \/ CmdShow \/ NonCommand \/ StmtEv
+  /\ \/ Reset \/ CmdSetRole \/ CmdSetPr \/ CmdSetShard \/ CmdSetKey \/ CmdSetKeyExt \/ CmdOpaque \/ CmdShow \/ NonCommand \/ StmtEv
 
 TSpec == TInit /\ [][Step]_tv
 Accepted == /\ PrintT(<<"MATCHED", ToString(TLCGet("stats").diameter - 1)>>)
